@@ -469,7 +469,7 @@ def build_once(case, comp, d, patch):
         if case.get("route") == "api2":  # the same object exported a second time: that image has to boot as well
             data = mbi.export()
         fuse = mbi.rkth
-    rom = {"type": comp["type"], "cb": comp["cb"], "hmac": bool(comp["hmac"]), "tz": mem["tz"], "man": comp["man"]}
+    rom = {"type": comp["type"], "cb": comp["cb"], "hmac": bool(comp["hmac"]), "tz": mem["tz"], "man": comp["man"], "ksdev": False}
     sec = {"userKey": uk, "fuse": fuse if comp["cb"] else None, "plain": None}
     appa = app + bytes(-len(app) % 4)
     payload = appa + (reloc_bytes(rel, len(appa)) if op["reloc"] and rel else b"")
